@@ -18,12 +18,19 @@ Import ListNotations.
 Require MayV.Rt.PoisonModel MayV.Rt.PoisonInv MayV.Rt.PoisonPres MayV.Rt.PoisonThm.
 Require MayV.Rt.SchedModel MayV.Rt.SchedInv MayV.Rt.PanicPath MayV.Rt.PanicThm.
 Require MayV.Rt.ScopeModel MayV.Rt.ScopeThm.
+Require MayV.Rt.PoisonTie MayV.Rt.PoolModel MayV.Rt.PoolThm.
+Require MayV.Sync.MutexModel MayV.Sync.RwLockModel.
 Module P := MayV.Rt.PoisonModel.
 Module PT := MayV.Rt.PoisonThm.
 Module S := MayV.Rt.SchedModel.
 Module SI := MayV.Rt.SchedInv.
 Module X := MayV.Rt.PanicThm.
 Module SC := MayV.Rt.ScopeModel.
+Module TIE := MayV.Rt.PoisonTie.
+Module MX := MayV.Sync.MutexModel.
+Module RW := MayV.Sync.RwLockModel.
+Module PL := MayV.Rt.PoolModel.
+Module PLT := MayV.Rt.PoolThm.
 
 (* ======================================================================================================== *)
 (* (i) poisoning                                                                                            *)
@@ -188,6 +195,58 @@ Theorem C13_i_write_guard_excludes_readers_also_when_poisoned :
 Proof. exact PT.write_guard_excludes_readers. Qed.
 Print Assumptions C13_i_write_guard_excludes_readers_also_when_poisoned.
 
+
+(* ---- the release, in the lock models of C05 / C12 ---- *)
+
+(* MutexModel (C05): a guard drop - for whatever reason - is the one unlock path CS -> U0 -> ..: cnt is decremented by
+   exactly one, the owner leaves `ent`, the lock becomes free (cnt was 1) or the hand-over to the first waiter starts;
+   the state after it is reachable, so every C05 theorem holds after a guard was dropped by a panic or a cancellation. *)
+Theorem C13_i_mutex_guard_drop_is_exactly_one_unlock :
+  forall isco s a, MX.Reach isco s -> MX.apc (MX.A s a) = MX.CS ->
+  exists s1 s2,
+    MX.step isco s (MX.Step a) = Some s1 /\ MX.apc (MX.A s1 a) = MX.U0 /\ MX.afor (MX.A s1 a) = a /\ MX.cnt s1 = MX.cnt s /\
+    MX.step isco s1 (MX.Step a) = Some s2 /\
+    1 <= MX.cnt s /\ MX.cnt s2 = MX.cnt s - 1 /\ MX.ent s2 = remove Nat.eq_dec a (MX.ent s) /\ ~ In a (MX.ent s2) /\
+    (MX.cnt s = 1 -> MX.apc (MX.A s2 a) = MX.Idle /\ MX.holder s2 = MX.HNone) /\
+    (1 < MX.cnt s -> MX.apc (MX.A s2 a) = MX.H1 /\ MX.holder s2 = MX.holder s) /\
+    MX.Reach isco s2.
+Proof. exact TIE.mutex_guard_drop_is_one_unlock. Qed.
+Print Assumptions C13_i_mutex_guard_drop_is_exactly_one_unlock.
+
+(* RwLockModel (C12): the write guard dropped by a panicking holder (Panic; Step at DWP) ends exactly where the normal
+   drop ends, with the flag set; which of the two happens is the decision of poison.rs. *)
+Theorem C13_i_rwlock_poisoning_drop_releases_like_the_normal_drop :
+  forall s a s1, RW.apc (RW.A s a) = RW.HoldW -> RW.step s (RW.Drop a) = Some s1 ->
+  exists sp s2, RW.step s (RW.Panic a) = Some sp /\ RW.apc (RW.A sp a) = RW.DWP /\
+                RW.step sp (RW.Step a) = Some s2 /\ RW.pois s2 = true /\ TIE.rw_same_but_pois s1 s2 /\
+                RW.apc (RW.A s2 a) = RW.U0 /\ RW.afor (RW.A s2 a) = Some a.
+Proof. exact TIE.rw_poisoning_drop_releases_like_the_normal_drop. Qed.
+Print Assumptions C13_i_rwlock_poisoning_drop_releases_like_the_normal_drop.
+
+Theorem C13_i_rwlock_write_drop_sets_exactly_the_decision :
+  forall gpan tpan isco cst s a, RW.apc (RW.A s a) = RW.HoldW ->
+  exists s', RW.run s (TIE.rw_write_drop gpan tpan isco cst a) = Some s' /\
+             RW.pois s' = RW.pois s || P.drop_poisons P.GW gpan tpan isco cst /\
+             RW.apc (RW.A s' a) = RW.U0 /\ RW.afor (RW.A s' a) = Some a /\ RW.cnt s' = RW.cnt s /\ RW.holder s' = RW.holder s.
+Proof. exact TIE.rw_write_drop_sets_exactly_the_decision. Qed.
+Print Assumptions C13_i_rwlock_write_drop_sets_exactly_the_decision.
+
+Theorem C13_i_rwlock_read_guard_has_no_poisoning_drop :
+  forall s a, RW.apc (RW.A s a) = RW.HoldR ->
+  RW.step s (RW.Panic a) = None /\ exists s1, RW.step s (RW.Drop a) = Some s1 /\ RW.pois s1 = RW.pois s.
+Proof. exact TIE.rw_read_guard_has_no_poisoning_drop. Qed.
+Print Assumptions C13_i_rwlock_read_guard_has_no_poisoning_drop.
+
+(* PoisonModel restricted to one Mutex l is simulated by MutexModel (one actor per guard): Lock = Start; Step (the CAS
+   0 -> 1), every guard drop - explicit, or by an unwinding of any kind - = Step; Step (CS -> U0 -> Idle).  So every run
+   of the guard life cycle with panics, cancellations, nested unwindings is a run of C05's model for that Mutex. *)
+Theorem C13_i_guard_life_cycle_is_simulated_by_the_mutex_model :
+  forall isco ismutex iscoM l, ismutex l = true ->
+  forall acts ps ms ps', P.Reach isco ismutex ps -> MX.Reach iscoM ms -> TIE.Rel l ps ms ->
+  P.run isco ismutex ps acts = Some ps' -> exists ms', MX.Reach iscoM ms' /\ TIE.Rel l ps' ms'.
+Proof. exact TIE.mutex_simulation_run. Qed.
+Print Assumptions C13_i_guard_life_cycle_is_simulated_by_the_mutex_model.
+
 (* ======================================================================================================== *)
 (* (ii) the panic stays in the coroutine                                                                    *)
 (* ======================================================================================================== *)
@@ -262,6 +321,51 @@ Theorem C13_ii_worker_survives :
 Proof. exact X.worker_survives. Qed.
 Print Assumptions C13_ii_worker_survives.
 
+
+(* ---- later spawns, also ones that reuse its stack (pool overlay on SchedModel) ---- *)
+
+(* Every state of a run with the stack pool is a state of SchedModel: every theorem above (and of C01) holds for
+   coroutines that run on a reused stack, whatever the previous occupant did (init_code re-initialises the generator:
+   generator crate, trusted). *)
+Theorem C13_ii_runs_with_the_pool_are_runs_of_the_scheduler_model :
+  forall cap w n s, PL.PReach cap w n s -> S.Reach w (PL.base s).
+Proof. exact PLT.preach_base. Qed.
+Print Assumptions C13_ii_runs_with_the_pool_are_runs_of_the_scheduler_model.
+
+(* Two live coroutines never run on the same stack. *)
+Theorem C13_ii_stacks_are_exclusive :
+  forall cap w n s c c' k, PL.PReach cap w n s ->
+  PL.livec s c -> PL.livec s c' -> PL.sof s c = Some k -> PL.sof s c' = Some k -> c = c'.
+Proof. exact PLT.stack_exclusive. Qed.
+Print Assumptions C13_ii_stacks_are_exclusive.
+
+(* The stack a spawn takes out of the pool is used by nobody: its previous occupant - returned, panicked or cancelled -
+   is gone; afterwards it belongs to the new coroutine. *)
+Theorem C13_ii_spawn_gets_a_stack_nobody_uses :
+  forall cap w n s t c id local s' k, PL.PReach cap w n s ->
+  PL.op s t = PL.OGot k -> PL.pstep cap s (PL.PSpawn t c id local) = Some s' ->
+  PL.sof s' c = Some k /\ PL.owner s' k = Some c /\ PL.livec s' c /\
+  (forall c', PL.livec s c' -> PL.sof s c' <> Some k) /\ ~ In k (PL.pool s).
+Proof. exact PLT.spawn_gets_a_stack_nobody_uses. Qed.
+Print Assumptions C13_ii_spawn_gets_a_stack_nobody_uses.
+
+Theorem C13_ii_pooled_stack_is_unused :
+  forall cap w n s k c, PL.PReach cap w n s -> In k (PL.pool s) -> PL.livec s c -> PL.sof s c <> Some k.
+Proof. exact PLT.pooled_stack_is_unused. Qed.
+Print Assumptions C13_ii_pooled_stack_is_unused.
+
+(* pool.put - the end of drop_coroutine, also on the panic path - never blocks; the counter is exact. *)
+Theorem C13_ii_pool_put_always_completes :
+  forall cap s t c k ok, PL.op s t = PL.OP1 c k ok -> exists s', PL.pstep cap s (PL.PPut1 t) = Some s' /\ PL.op s' t = PL.OIdle.
+Proof. exact PLT.put_always_completes. Qed.
+Print Assumptions C13_ii_pool_put_always_completes.
+
+Theorem C13_ii_pool_size_accounting :
+  forall cap w n s, PL.PReach cap w n s ->
+  PL.psize s = (Z.of_nat (length (PL.pool s)) + PL.pp s + PL.px s - PL.pg s)%Z.
+Proof. exact PLT.size_accounting. Qed.
+Print Assumptions C13_ii_pool_size_accounting.
+
 (* ======================================================================================================== *)
 (* (iii) owners re-raise (C14, cited)                                                                        *)
 (* ======================================================================================================== *)
@@ -291,3 +395,12 @@ Example C13_ex_panic_then_next_coroutine_on_the_same_worker :
     S.jret (S.co s 1) = Some (S.RPan 7%Z) /\ S.jret (S.co s 2) = Some (S.RVal 5%Z) /\ S.stk s 1 = [] /\ S.dead s = [2; 1] /\
     S.bodycnt (S.co s 1) = 1 /\ S.bodycnt (S.co s 2) = 1 /\ S.pan (S.co s 1) = None /\ S.pkt (S.co s 2) = None.
 Proof. exact X.demo_run. Qed.
+
+(* capacity 1, stack 0 cached: coroutine 1 takes it and panics with 7, the drop puts it back, coroutine 2 gets the SAME
+   stack, returns 5; join(1) = Err(7), join(2) = Ok(5), the stack is back in the pool, the counter is 1 *)
+Example C13_ex_stack_of_a_panicked_coroutine_is_reused :
+  exists s, PL.psteps 1 (PL.pinit 1 1) PLT.reuse_sched = Some s /\ PL.PReach 1 1 1 s /\
+    PL.sof s 1 = Some 0 /\ PL.sof s 2 = Some 0 /\ PL.pool s = [0] /\ PL.psize s = 1%Z /\ PL.nexts s = 1 /\
+    S.jret (S.co (PL.base s) 1) = Some (S.RPan 7%Z) /\ S.jret (S.co (PL.base s) 2) = Some (S.RVal 5%Z) /\
+    S.bodycnt (S.co (PL.base s) 2) = 1 /\ S.stk (PL.base s) 1 = [] /\ S.dead (PL.base s) = [2; 1].
+Proof. exact PLT.reuse_after_panic_run. Qed.
